@@ -514,6 +514,10 @@ func (e *Enc) applyContract(fr *Frame, st *State, c *Contract, args []*Val, rt t
 			e.havocAll(st)
 		} else {
 			menv := &Env{e: e, vars: vars, st: pre, old: pre, pkgPath: c.PkgPath, imports: c.Imports}
+			// the callee may allocate and may store what it allocated into the targets it modifies: the allocation counter
+			// moves BEFORE the targets are havocked, so that the typing fact "a reference read from memory is <= alloc" of a
+			// havocked reference leaf refers to the counter AFTER the call (it contradicted `ensures fresh(p.f)` otherwise)
+			e.bumpAlloc(st)
 			for i, m := range c.Modifies {
 				cond := "true"
 				if i < len(c.ModWhen) && c.ModWhen[i] != nil {
@@ -562,7 +566,6 @@ func (e *Enc) applyContract(fr *Frame, st *State, c *Contract, args []*Val, rt t
 					st.heap[k] = n
 				}
 			}
-			e.bumpAlloc(st)
 		}
 	}
 	var res *Val
